@@ -123,7 +123,23 @@ def judge(spec, res):
             else:
                 c = o['new_contexts'][-1]
                 if c['output'] != text:
-                    viol('context-output', 'own record %r, student wrote %r' % (c['output'][-60:], text[-60:]))
+                    # HOW a prompt is echoed is not part of the property: with or without a newline after it.  If the
+                    # record differs from the model only in that, the model adopts the record's text for this execution
+                    # (all views must then still agree on it).
+                    import c06
+                    pat = c06.text_pattern([e if e[0] == 'out' else ('in', str(e[1]), e[2]) for e in ref['events']])
+                    strict = ''.join(__import__('re').escape(e[1]) if e[0] == 'out' else __import__('re').escape(str(e[1])) + '\n?'
+                                     for e in ref['events'])
+                    if __import__('re').fullmatch(strict, c['output'], __import__('re').S) and any(e[0] == 'in' for e in ref['events']):
+                        m.raw = m.raw[:len(m.raw) - len(text)] + c['output']
+                        if text:
+                            del m.lines[len(m.lines) - len(text.rstrip().split('\n')):]
+                        if c['output']:
+                            m.lines += [ln.rstrip() for ln in c['output'].rstrip().split('\n')]
+                        m.contexts[-1] = (c['output'], consumed)
+                        text = c['output']
+                    else:
+                        viol('context-output', 'own record %r, student wrote %r' % (c['output'][-60:], text[-60:]))
                 if c['inputs'] != consumed:
                     viol('context-inputs', 'own record %r, input() returned %r' % (c['inputs'], consumed))
             silent = 'silent' if not text else ('blank-only' if not text.strip() else 'printing')
